@@ -3,8 +3,10 @@ pub mod c02;
 pub mod c03;
 pub mod c04;
 pub mod c05;
+pub mod c09;
 pub mod c10;
 pub mod c11;
+pub mod c15;
 
 use crate::report::Report;
 
@@ -40,8 +42,10 @@ pub fn run(id: &str, report: &mut Report, replay: Option<&str>) {
         "C03" => c03::run(report, replay_val.as_ref()),
         "C04" => c04::run(report, replay_val.as_ref()),
         "C05" => c05::run(report, replay_val.as_ref()),
+        "C09" => c09::run(report, replay_val.as_ref()),
         "C10" => c10::run(report, replay_val.as_ref()),
         "C11" => c11::run(report, replay_val.as_ref()),
+        "C15" => c15::run(report, replay_val.as_ref()),
         _ => {
             eprintln!("unknown property {}", id);
             std::process::exit(2);
